@@ -67,9 +67,25 @@ structure IvZ where
 deriving DecidableEq, Repr, Inhabited
 
 /-- the interval lies inside its own chromosome (the domain of the whole-genome operations):
-`start < size` and `stop ≤ size` are what `start_ends_from_intervals` checks -/
+`start < size`, `stop ≤ size` and (since repair 0868386) `start ≤ stop` are what `start_ends_from_intervals` checks;
+`0 ≤ start` is checked on the integer input, see `IvZ.checked` -/
 def Iv.valid (sizes : List Nat) (iv : Iv) : Bool :=
-  iv.c < sizes.length && iv.s < size sizes iv.c && iv.e ≤ size sizes iv.c
+  iv.c < sizes.length && iv.s < size sizes iv.c && iv.e ≤ size sizes iv.c && iv.s ≤ iv.e
+
+/-! ## Integer input: negative coordinates (repair 0868386) -/
+
+/-- `start_ends_from_intervals` on the integer columns: a negative start raises (it would reach into the previous
+chromosome), so does a stop before the start; the remaining checks are `Iv.valid` -/
+def IvZ.checked (iv : IvZ) : Option Iv :=
+  if 0 ≤ iv.s ∧ iv.s ≤ iv.e then some { c := iv.c, s := iv.s.toNat, e := iv.e.toNat, fwd := iv.fwd } else none
+
+/-- `from_local_coordinates` on an integer offset: `offset < 0` and `offset ≥ size` raise -/
+def fromLocalZ (sizes : List Nat) (c : Nat) (p : Int) : Option Nat :=
+  if p < 0 then none else fromLocal sizes c p.toNat
+
+/-- the rule shipped before repair 0868386: only `offset ≥ size` was rejected -/
+def fromLocalOldZ (sizes : List Nat) (c : Nat) (p : Int) : Option Int :=
+  if c < sizes.length ∧ p < (size sizes c : Int) then some ((offset sizes c : Int) + p) else none
 
 /-! ## Name encoding and ignored chromosomes (`GenomeContext.__init__`, `mask_data`) -/
 
